@@ -59,6 +59,13 @@
    a message: the semantics is more permissive than any implementation needs, which is the right
    direction for "every implementation run is a SAX run".
 
+   History of this file: the linear rules are as first written.  Added later, conservatively (no
+   linear rule changed): `obj` reads the interpreter-internal term `fwd^drop self b` as drop(b); the
+   rule copy is stated with NAMES (the copied object is `obj b P`, the free names of P are replaced
+   by fresh names ns1 / ns2, one split per free name) instead of with a channel renaming, so that it
+   is literally what the interpreter's DUP does; split objects are binary (declarations with more
+   than two provider names are outside the proved refinement).
+
    Fresh channels are chosen by a side condition (`c ∉ cfg_cids`), binding is "named with freshness
    side conditions".  The structural rules do not check modes: a typed program only applies them to
    channels whose mode admits weakening / contraction (C05/C07). *)
